@@ -109,6 +109,11 @@ Section Dist.
   Definition uniform_real (l u : R) (k : Z) : R :=
     rn (l + rn (rn (rn (IZR k) / rn (IZR 4294967295)) * rn (u - l))).
   Definition uniform_real_hi (l u : R) : R := rn (l + rn (u - l)).
+  (* the same template member for ANY generator G with range [gmin, gmax] (g.min(), g.max()), sample k = g():
+       range = T(g.max() - g.min());  l + ((g() - g.min()) / range) * (u - l)
+     (the subtractions are done in G's unsigned result_type, where gmin <= k <= gmax makes them exact) *)
+  Definition uniform_real_g (l u : R) (gmin gmax k : Z) : R :=
+    rn (l + rn (rn (rn (IZR (k - gmin)) / rn (IZR (gmax - gmin))) * rn (u - l))).
   (* the code before the repair: scale = (u - l) / T(g.max() - g.min());  l + (g() - g.min()) * scale.
      For a width below about 2^-94 the scale is a denormal whose rounding error is multiplied by up to 2^32:
      only the weak bound uniform_real_old_hi (the formula itself at the largest sample) holds, and values
